@@ -2143,7 +2143,12 @@ unsafe fn fill_find_data(
     }
 
     // Set plain name pointer (points to last component after backslash)
-    let plain_name_offset = file_entry.name.rfind('\\').map(|pos| pos + 1).unwrap_or(0);
+    // Computed on the (possibly truncated) copy so the pointer stays inside cFileName
+    let plain_name_offset = name_bytes[..copy_len]
+        .iter()
+        .rposition(|&b| b == b'\\')
+        .map(|pos| pos + 1)
+        .unwrap_or(0);
     find_data.sz_plain_name = find_data.c_file_name.as_mut_ptr().add(plain_name_offset);
 
     // Set file information
